@@ -467,6 +467,13 @@ func (r *transport) backgroundRevalidate(
 			errc <- err
 			return
 		}
+		// A 304 speaks about the response whose validators were sent. If the
+		// entry was replaced while the request was in flight, the 304 must not
+		// be merged into its successor (RFC 9111 §4.3.4).
+		if resp.StatusCode == http.StatusNotModified && !sentValidatorsOf(req.Header, own.Data.Header) {
+			errc <- nil
+			return
+		}
 		refs, _ := r.cache.GetRefs(urlKey)
 		refIndex := slices.IndexFunc(refs, func(ref *internal.ResponseRef) bool {
 			return ref != nil && ref.ResponseID == stored.ID
@@ -490,6 +497,13 @@ func (r *transport) backgroundRevalidate(
 	case <-ctx.Done():
 	case <-errc:
 	}
+}
+
+// sentValidatorsOf reports whether the conditional request carried exactly the
+// validators of the stored response.
+func sentValidatorsOf(reqHeader, storedHeader http.Header) bool {
+	return reqHeader.Get("If-None-Match") == storedHeader.Get("ETag") &&
+		reqHeader.Get("If-Modified-Since") == storedHeader.Get("Last-Modified")
 }
 
 func (r *transport) roundTripTimed(
